@@ -212,9 +212,15 @@ def execute(plan, want_refs=True, timeout=120.0, coverage=False):
         chains[r["id"]] = (ch, key)
         groups.setdefault(key, []).append(r)
     stats["o3_groups"] = sum(1 for g in groups.values() if len(g) > 1)
+    def is_text(rec):
+        r0 = rec.get("result")
+        return isinstance(r0, list) and len(r0) >= 2 and r0[0] == "handle" and r0[1] == "_Text"
+
     for key, g in groups.items():
         first = g[0]
         for other in g[1:]:
+            if is_text(first) or is_text(other):
+                continue          # judged through what is loaded from it, not letter by letter
             d = C.diff(first["result"], other["result"])
             if d:
                 viol("O3", other, "repeat-differs", f"same call as {first['id']} gave a different result: {d}")
@@ -236,7 +242,7 @@ def execute(plan, want_refs=True, timeout=120.0, coverage=False):
                 viol("O1", r, "isolated-run-differs-in-kind", f"in isolation the chain ends with status {ref['status']} at {ref['id']}")
                 continue
             stats["o1_compared"] += 1
-            d = C.diff(r["result"], ref["result"])
+            d = None if is_text(r) else C.diff(r["result"], ref["result"])
             if d and numeric_only(r["result"], ref["result"]):
                 # before a purely numerical difference is reported: is the isolated answer itself stable when only the
                 # memory layout of the process changes?  (BLAS kernels may round differently for other alignments; an
@@ -255,8 +261,11 @@ def execute(plan, want_refs=True, timeout=120.0, coverage=False):
             if ref.get("o2"):
                 # the isolated run itself mutated its arguments: report against the step (O2 seen in isolation)
                 pass
-    sched = digest([plan["steps"], hist["events"]])
-    resd = digest([[r["id"], r["status"], C.rounded(r.get("result"))] for r in recs])
+    # the schedule digest covers what the harness decides (the explicit plan); everything the library does with it -
+    # names of temporary files it invents, the line an injected exception lands on, how often it calls a seam -
+    # is library behaviour and may legitimately depend on pid, time or hash seed
+    sched = digest([plan["steps"], sorted(plan["recipes"].items(), key=lambda kv: kv[0])])
+    resd = digest([[r["id"], r["status"], None if is_text(r) else C.rounded(r.get("result"))] for r in recs])
     discarded = {}
     for r in recs:
         if r.get("discarded"):
